@@ -82,6 +82,12 @@ static void run_pair(Ctx& ctx, MODULE* mod, uint64_t N, const std::string& id, c
     judge(ctx, id, "znx_small_single_product", N, r.as<int64_t>(), ex, E);
     if (memcmp(a.p, a0.data(), N * 8) || memcmp(b.p, p.data(), N * 8)) ctx.violation(id, "znx_small_single_product modified an operand");
     if (!r.guards_ok() || !a.guards_ok() || !b.guards_ok() || !t.guards_ok()) ctx.violation(id, "znx_small_single_product wrote outside a declared extent");
+    if (a0 == p) {  // a square: the same pointer passed for both operands
+      prefill(r.p, N * 8, 2); prefill(t.p, t.bytes, 1);
+      znx_small_single_product(mod, r.as<int64_t>(), a.as<int64_t>(), a.as<int64_t>(), t.p);
+      judge(ctx, id, "znx_small_single_product(a, a) with one pointer for both operands", N, r.as<int64_t>(), ex, E);
+      if (memcmp(a.p, a0.data(), N * 8)) ctx.violation(id, "znx_small_single_product(a, a) modified its operand");
+    }
   }
   // paths 1, 2: svp prepare + apply + idft / idft_tmp_a; limb i of the vector is a0 rotated by i (same norms)
   std::vector<std::pair<uint64_t, uint64_t>> shapes = {{1, 1}};
@@ -176,6 +182,11 @@ static void run_scope(Ctx& ctx, uint64_t N, int64_t R, const CpuCfg& cfg, uint64
     bool ok = true;
     for (uint64_t k = 0; k < N; ++k) if ((i128)r.as<int64_t>()[k] != ex[k]) ok = false;
     if (!ok) { ctx.violation(id, sfmt("pair code %llu: the product is not the exact integer product", (unsigned long long)code)); break; }
+    if (memcmp(a.p, b.p, N * 8) == 0) {  // squares also through one pointer
+      znx_small_single_product(mod, r.as<int64_t>(), a.as<int64_t>(), a.as<int64_t>(), t.p);
+      for (uint64_t k = 0; k < N; ++k) if ((i128)r.as<int64_t>()[k] != ex[k]) ok = false;
+      if (!ok) { ctx.violation(id, sfmt("pair code %llu: the square computed with one pointer for both operands is not the exact integer product", (unsigned long long)code)); break; }
+    }
   }
   ctx.metric_add(3, hi - lo);
   ctx.end_case(true);
@@ -191,6 +202,7 @@ int main(int argc, char** argv) {
   auto cf = cfgs(th);
   std::vector<uint64_t> Ns = {4096, 1024, 256, 64, 32, 16, 8, 4, 2};
   if (th) for (uint64_t N : {65536, 32768, 16384, 8192}) for (auto& c : cfgs(false)) for (int pa = 0; pa < NPAT; pa += 2) items.push_back({2, N, c, pa, pa + 1, 0});  // 6 x 12 x 3 pairs
+  if (!th) for (uint64_t N : {65536, 16384}) for (int pa = 0; pa < NPAT; pa += 4) items.push_back({2, N, CFG_NATIVE, pa, pa + 1, 0});  // sparse large-N layer of the quick tier
   for (uint64_t N : Ns) for (auto& c : cf) for (int pa = 0; pa < NPAT; ++pa) items.push_back({0, N, c, pa, pa + 1, 0});
   for (auto& c : cf) { for (int p = 0; p < 16; ++p) items.push_back({1, 4, c, p, 16, 2}); items.push_back({1, 2, c, 0, 1, 3}); }
   if (th) for (auto& c : cfgs(false)) { for (int p = 0; p < 64; ++p) items.push_back({1, 4, c, p, 64, 3}); for (int p = 0; p < 256; ++p) items.push_back({1, 8, c, p, 256, 1}); }  // complete scopes N=4 [-3,3], N=8 [-1,1]
